@@ -292,9 +292,82 @@ def disabled(ctx, si, payload):
                     ctx.obs["disabled_runs_with_no_survivor"] = ctx.obs.get("disabled_runs_with_no_survivor", 0) + 1
                 if os.path.exists(out) or os.listdir(d) or ev:
                     ctx.violation("disabled", f"write_stages=False, {spec} ({rows} rows): the simulation wrote to disk (output exists: {os.path.exists(out)}, directory: {os.listdir(d)}, write events: {ev[:3]})", wit)
+            # ---- a stage that fails while writing is disabled: still nothing on disk (seeded C17-17: a
+            #      "flush what we have" on the failure path that does not look at write_stages)
+            from ..c17_child import InjectedFault, method_fault
+
+            def inner_fault(which):
+                # a failure *inside* a stage (below the result-store decorator of the stage's entry point)
+                from nuspacesim.simulation.eas_optical.cphotang import CphotAng
+                from nuspacesim.simulation.eas_radio.radio import RadioEFieldParams
+                from nuspacesim.simulation.taus.taus import Taus
+
+                obj, attr = {"inside-taus": (Taus, "tau_exit_prob"), "inside-eas": (CphotAng, "__call__"), "inside-radio": (RadioEFieldParams, "__call__")}[which]
+                orig = obj.__dict__[attr]
+
+                def boom(*a, **k):
+                    raise InjectedFault(f"injected failure {which}")
+
+                setattr(obj, attr, boom)
+                return lambda: setattr(obj, attr, orig)
+
+            for meth in ("taus", "eas", "snr", "mcintegral-radio", "inside-taus", "inside-eas", "inside-radio"):
+                out = os.path.join(d, "fail.fits")
+                undo = inner_fault(meth) if meth.startswith("inside-") else method_fault({"method": meth})
+                _AUDIT["events"].clear()
+                _AUDIT["on"] = True
+                try:
+                    sim, log = fullrun.compute(cfg, seed=seed, output_file=out, write_stages=False, with_probes=False)
+                finally:
+                    _AUDIT["on"] = False
+                    undo()
+                ev = [e for e in _AUDIT["events"] if any(str(x).startswith(d) or (not str(x).startswith("/") and x not in ("w", "r")) for x in e[1:2])]
+                if sim is not None and log.exception is None:
+                    continue  # the stage is not part of this run (e.g. no surviving trajectory)
+                ctx.count("disabled-failing")
+                wit = {"config": spec, "seed": seed, "stage": meth}
+                if not isinstance(log.exception, InjectedFault):
+                    ctx.exception("raises", f"write_stages=False, failure injected in stage {meth}: compute() raised something else", log.exception, wit)
+                elif os.path.exists(out) or os.listdir(d) or ev:
+                    ctx.violation("disabled", f"write_stages=False, {spec}, stage {meth} fails: the simulation wrote to disk (output exists: {os.path.exists(out)}, directory: {os.listdir(d)}, write events: {ev[:3]})", wit)
         finally:
             os.chdir(cwd0)
             shutil.rmtree(d, ignore_errors=True)
+    # ---- staged runs named by a *relative* path from two working directories in one process: each run's
+    #      stages and final table land in its own directory (seeded C17-16: resolved path memoised on the name)
+    cfgr = build_config({"mode": "Diffuse", "n": 40})
+    dirs = [tempfile.mkdtemp(prefix=f"c17rel{i}_", dir=core.WORK) for i in range(3)]
+    cwd0 = os.getcwd()
+    try:
+        first = None
+        for i, dd in enumerate(dirs):
+            os.chdir(dd)
+            sim, log = fullrun.compute(cfgr, seed=70 + i, output_file="stages.fits", write_stages=True, with_probes=False)
+            ctx.count("relative-path")
+            wit = {"run": i, "outfile": "stages.fits"}
+            if log.exception is not None:
+                ctx.exception("raises", "staged run with a relative output name raised", log.exception, wit)
+                break
+            here = os.path.join(dd, "stages.fits")
+            if not os.path.exists(here):
+                ctx.violation("relative-path", f"staged run #{i + 1} in a new working directory with the relative output name 'stages.fits': no file in that directory (directory holds {os.listdir(dd)})", wit)
+                break
+            try:
+                cols, _, _ = read_fits(here)
+                if len(sim) and list(cols) != list(sim.colnames):
+                    ctx.violation("relative-path", f"staged run #{i + 1}: the file in its directory does not hold the run's columns", wit)
+            except Exception as e:
+                ctx.exception("relative-path", f"staged run #{i + 1}: file in its directory unreadable", e, wit)
+            b0 = open(os.path.join(dirs[0], "stages.fits"), "rb").read()
+            if first is None:
+                first = b0
+            elif b0 != first:
+                ctx.violation("relative-path", f"staged run #{i + 1} (another working directory, same relative name) overwrote the first run's file", wit)
+                break
+    finally:
+        os.chdir(cwd0)
+        for dd in dirs:
+            shutil.rmtree(dd, ignore_errors=True)
 
 
 def entry(ctx, si, payload):
@@ -380,7 +453,7 @@ def run(ctx):
             core.run_shards(ctx, "nssmon.checks.c17", "entry", P2, workers=16, timeout=ctx.pick(1500, 7000))
     finally:
         shutil.rmtree(top, ignore_errors=True)
-    for m in ("reference-boundaries", "raise", "die-after", "die-before", "raise-in-stage", "disabled"):
+    for m in ("reference-boundaries", "raise", "die-after", "die-before", "raise-in-stage", "disabled", "disabled-failing", "relative-path"):
         ctx.require(m)
     if ctx.obs.get("disabled_runs_with_no_survivor", 0) < 1:
         ctx.inconclusive_because("no write_stages=False run without surviving trajectories was observed")
